@@ -17,6 +17,7 @@ import Driver.AliasCase
 import Driver.TimeCase
 import Driver.TypedCase
 import Driver.JlCase
+import Driver.MapToCase
 
 open Jl
 
@@ -42,6 +43,7 @@ def runLine (line : String) : Driver.Result :=
     if impl.startsWith "ok" then ⟨"P", s!"faultaccept {line} cut={cut} {how}: impl [{impl}] violates C16: key=accepted-fragment-of-a-failed-read"⟩
     else if impl.startsWith "panic" then ⟨"P", s!"faultaccept {line} cut={cut}: {impl} violates C16: key=panic"⟩
     else ⟨"S", ""⟩
+  | ["mapto", _, op, row, target, ext, impl] => Driver.MapToCase.runMapTo op row target ext impl
   | ["tfamily", _, ops, obs] => Driver.AliasCase.runFamily ops obs
   | ["overlong", _, size, tail, impl] =>
     -- C16: the bytes of a line that could not be delivered (longer than the importer's limit) are not lines of the
